@@ -10,3 +10,7 @@ claim("C19", "runtime monitoring: exhaustive enumeration of the four finite cale
       "Every Easter -4712..10000 and every Pesach 1..3000 in both tiers; every Moslem date 1..2500 AH and every civil date 622-07-16..3000-12-31 in the thorough tier (a fifth of the years plus all year edges in quick) are converted by the real functions and compared with reference calendars that share no formula with Meeus' recipes; weekday, ranges, month/year lengths, consecutive-day and round-trip clauses are observed on the results.",
       "trusts the three reference calendars (self-checked on literature dates at start-up) and the day counter",
       "DESIGN.md section 3 C19")
+claim("C10", "runtime monitoring: complete enumeration of the (year, month, day, time, override) grid against the IERS leap-second list as reference model",
+      "Every grid point the property quantifies over (1950..2100 x 12 x {1,15,last} x {0h,12h,23:59:59}, table lookup and overrides k=0..60 in thorough / 6 values in quick) is built with the real constructor with and without utc=True, read back with get_full_date(utc=True), and compared with the IERS insertion list; the leap-second step function and Delta-T band/joints are observed for every month.",
+      "trusts the IERS list in vpm/oracles/iers.py and the day counter; offsets compared at 1e-4 s (JDE resolution is 4e-5 s)",
+      "DESIGN.md section 3 C10")
